@@ -12,6 +12,7 @@ From RecordUpdate Require Import RecordSet.
 Import RecordSetNotations.
 From Aldrin Require Import gen.ClientConsts Broker.Model Proto.ClientView.
 Local Open Scope N_scope.
+Local Arguments includes_current : simpl never.
 
 Fixpoint ldrain (z : lcore) (d : list msg) : lcres :=
   match d with
@@ -46,6 +47,13 @@ Definition link (b : option (option scope)) (v : option lst) : Prop :=
 Section Listener.
 Variable k : uuid.
 
+(* the requests of this listener: nothing else travels in this slice's queue *)
+Definition is_lreq (m : msg) : Prop :=
+  match m with
+  | StartBusListener _ c _ | StopBusListener _ c | DestroyBusListener _ c => c = k
+  | _ => False
+  end.
+
 Record LInv (z : lsys) (c' : lcore) : Prop := {
   li_drain : ldrain (z_c z) (z_down z) = LcOk c';
   li_link : link (z_b z) (lc_v c');
@@ -56,7 +64,8 @@ Record LInv (z : lsys) (c' : lcore) : Prop := {
   li_fresh_up : forall s, s ∈ up_serials (z_up z) -> s < z_next z;
   li_fresh_start : forall s, is_Some (lc_pstart (z_c z) !! s) -> s < z_next z;
   li_fresh_stop : forall s, s ∈ lc_pstop (z_c z) -> s < z_next z;
-  li_fresh_destroy : forall s, s ∈ lc_pdestroy (z_c z) -> s < z_next z }.
+  li_fresh_destroy : forall s, s ∈ lc_pdestroy (z_c z) -> s < z_next z;
+  li_only : forall m, m ∈ z_up z -> is_lreq m }.
 
 (* ---------------------------------------------------------------- draining with one more pending request *)
 Lemma drain_ins_start d : forall c c' s sc,
@@ -67,6 +76,11 @@ Proof.
   { inversion Hd; subst. split; [reflexivity|exact Hs]. }
   destruct c as [v ps pt pd]. cbn in Hs.
   destruct m; cbn in Hd |- *; try discriminate.
+  - (* DestroyBusListenerReply *)
+    destruct (negb (bool_decide (serial ∈ pd))); cbn in Hd |- *; [discriminate|].
+    destruct ok; cbn in Hd |- *.
+    + destruct v as [l|]; cbn in Hd |- *; [|discriminate]. apply (IH _ _ s sc Hd). exact Hs.
+    + apply (IH _ _ s sc Hd). exact Hs.
   - (* StartBusListenerReply *)
     destruct (ps !! serial) as [sc0|] eqn:E; cbn in Hd |- *; [|discriminate].
     assert (serial <> s) by (intros ->; congruence).
@@ -86,13 +100,8 @@ Proof.
       apply (IH _ _ s sc Hd). exact Hs.
     + apply (IH _ _ s sc Hd). exact Hs.
     + apply (IH _ _ s sc Hd). exact Hs.
-  - (* DestroyBusListenerReply *)
-    destruct (negb (bool_decide (serial ∈ pd))); cbn in Hd |- *; [discriminate|].
-    destruct ok; cbn in Hd |- *.
-    + destruct v as [l|]; cbn in Hd |- *; [|discriminate]. apply (IH _ _ s sc Hd). exact Hs.
-    + apply (IH _ _ s sc Hd). exact Hs.
   - (* EmitBusEvent *)
-    destruct c0 as [c0|]; cbn in Hd |- *.
+    destruct c as [c0|]; cbn in Hd |- *.
     + destruct v as [l|]; cbn in Hd |- *; [|discriminate]. destruct (l_emit_current l); cbn in Hd |- *; [|discriminate].
       apply (IH _ _ s sc Hd). exact Hs.
     + apply (IH _ _ s sc Hd). exact Hs.
@@ -109,6 +118,10 @@ Proof.
   { inversion Hd; subst. split; [reflexivity|exact Hs]. }
   destruct c as [v ps pt pd]. cbn in Hs.
   destruct m; cbn in Hd |- *; try discriminate.
+  - destruct (negb (bool_decide (serial ∈ pd))); cbn in Hd |- *; [discriminate|].
+    destruct ok; cbn in Hd |- *.
+    + destruct v as [l|]; cbn in Hd |- *; [|discriminate]. apply (IH _ _ s Hd). exact Hs.
+    + apply (IH _ _ s Hd). exact Hs.
   - destruct (ps !! serial) as [sc0|] eqn:E; cbn in Hd |- *; [|discriminate].
     destruct r; cbn in Hd |- *.
     + destruct v as [l|]; cbn in Hd |- *; [|discriminate]. destruct (l_start l sc0); cbn in Hd |- *; [|discriminate].
@@ -125,11 +138,7 @@ Proof.
       unfold set in *; cbn in *. rewrite Heq. apply (IH _ _ s Hd). cbn. set_solver.
     + unfold set in *; cbn in *. rewrite Heq. apply (IH _ _ s Hd). cbn. set_solver.
     + unfold set in *; cbn in *. rewrite Heq. apply (IH _ _ s Hd). cbn. set_solver.
-  - destruct (negb (bool_decide (serial ∈ pd))); cbn in Hd |- *; [discriminate|].
-    destruct ok; cbn in Hd |- *.
-    + destruct v as [l|]; cbn in Hd |- *; [|discriminate]. apply (IH _ _ s Hd). exact Hs.
-    + apply (IH _ _ s Hd). exact Hs.
-  - destruct c0 as [c0|]; cbn in Hd |- *.
+  - destruct c as [c0|]; cbn in Hd |- *.
     + destruct v as [l|]; cbn in Hd |- *; [|discriminate]. destruct (l_emit_current l); cbn in Hd |- *; [|discriminate].
       apply (IH _ _ s Hd). exact Hs.
     + apply (IH _ _ s Hd). exact Hs.
@@ -145,6 +154,15 @@ Proof.
   { inversion Hd; subst. split; [reflexivity|exact Hs]. }
   destruct c as [v ps pt pd]. cbn in Hs.
   destruct m; cbn in Hd |- *; try discriminate.
+  - destruct (bool_decide (serial ∈ pd)) eqn:E; cbn in Hd; cbn in Hd |- *; [|discriminate].
+    apply bool_decide_eq_true in E.
+    assert (serial <> s) by (intros ->; contradiction).
+    rewrite bool_decide_eq_true_2 by set_solver. cbn.
+    assert (Heq : ({[s]} ∪ pd) ∖ {[serial]} = {[s]} ∪ (pd ∖ {[serial]})) by set_solver.
+    destruct ok; cbn in Hd |- *.
+    + destruct v as [l|]; cbn in Hd |- *; [|discriminate].
+      unfold set in *; cbn in *. rewrite Heq. apply (IH _ _ s Hd). cbn. set_solver.
+    + unfold set in *; cbn in *. rewrite Heq. apply (IH _ _ s Hd). cbn. set_solver.
   - destruct (ps !! serial) as [sc0|] eqn:E; cbn in Hd |- *; [|discriminate].
     destruct r; cbn in Hd |- *.
     + destruct v as [l|]; cbn in Hd |- *; [|discriminate]. destruct (l_start l sc0); cbn in Hd |- *; [|discriminate].
@@ -157,16 +175,7 @@ Proof.
       apply (IH _ _ s Hd). exact Hs.
     + apply (IH _ _ s Hd). exact Hs.
     + apply (IH _ _ s Hd). exact Hs.
-  - destruct (bool_decide (serial ∈ pd)) eqn:E; cbn in Hd; cbn in Hd |- *; [|discriminate].
-    apply bool_decide_eq_true in E.
-    assert (serial <> s) by (intros ->; contradiction).
-    rewrite bool_decide_eq_true_2 by set_solver. cbn.
-    assert (Heq : ({[s]} ∪ pd) ∖ {[serial]} = {[s]} ∪ (pd ∖ {[serial]})) by set_solver.
-    destruct ok; cbn in Hd |- *.
-    + destruct v as [l|]; cbn in Hd |- *; [|discriminate].
-      unfold set in *; cbn in *. rewrite Heq. apply (IH _ _ s Hd). cbn. set_solver.
-    + unfold set in *; cbn in *. rewrite Heq. apply (IH _ _ s Hd). cbn. set_solver.
-  - destruct c0 as [c0|]; cbn in Hd |- *.
+  - destruct c as [c0|]; cbn in Hd |- *.
     + destruct v as [l|]; cbn in Hd |- *; [|discriminate]. destruct (l_emit_current l); cbn in Hd |- *; [|discriminate].
       apply (IH _ _ s Hd). exact Hs.
     + apply (IH _ _ s Hd). exact Hs.
@@ -187,6 +196,10 @@ Proof.
   assert (Hstep : (forall s, is_Some (lc_pstart c1 !! s) -> is_Some (lc_pstart c !! s)) /\
                   lc_pstop c1 ⊆ lc_pstop c /\ lc_pdestroy c1 ⊆ lc_pdestroy c).
   { destruct c as [v ps pt pd]. destruct m; cbn in E; try discriminate.
+    - destruct (negb (bool_decide (serial ∈ pd))); cbn in E; [discriminate|].
+      destruct ok; cbn in E.
+      + destruct v as [l|]; cbn in E; [|discriminate]. inversion E; subst; cbn. split; [auto|split; set_solver].
+      + inversion E; subst; cbn. split; [auto|split; set_solver].
     - destruct (ps !! serial) as [sc0|] eqn:E1; cbn in E; [|discriminate].
       assert (forall s, is_Some (delete serial ps !! s) -> is_Some (ps !! s)).
       { intros s [x Hx]. apply lookup_delete_Some in Hx. destruct Hx as [_ Hx]. eauto. }
@@ -201,11 +214,7 @@ Proof.
         inversion E; subst; cbn. split; [auto|split; set_solver].
       + inversion E; subst; cbn. split; [auto|split; set_solver].
       + inversion E; subst; cbn. split; [auto|split; set_solver].
-    - destruct (negb (bool_decide (serial ∈ pd))); cbn in E; [discriminate|].
-      destruct ok; cbn in E.
-      + destruct v as [l|]; cbn in E; [|discriminate]. inversion E; subst; cbn. split; [auto|split; set_solver].
-      + inversion E; subst; cbn. split; [auto|split; set_solver].
-    - destruct c0 as [c0|]; cbn in E.
+    - destruct c as [c0|]; cbn in E.
       + destruct v as [l|]; cbn in E; [|discriminate]. destruct (l_emit_current l); cbn in E; [|discriminate].
         inversion E; subst; cbn. split; [auto|split; reflexivity].
       + inversion E; subst; cbn. split; [auto|split; reflexivity].
@@ -217,12 +226,18 @@ Qed.
 (* ---------------------------------------------------------------- the initial state *)
 Lemma linv_created : LInv lcreated (z_c lcreated).
 Proof.
-  constructor; cbn; try (intros; set_solver).
+  constructor; cbn.
   - reflexivity.
   - split; [reflexivity|]. intros H; congruence.
   - intros s sc. rewrite lookup_empty. split; [discriminate|]. intros H. inversion H.
+  - intros s. split; intros H; [set_solver|inversion H].
+  - intros s. split; intros H; [set_solver|inversion H].
   - constructor.
+  - intros s H. inversion H.
   - intros s [x Hx]. rewrite lookup_empty in Hx. discriminate.
+  - intros s H. set_solver.
+  - intros s H. set_solver.
+  - intros m H. inversion H.
 Qed.
 
 (* ---------------------------------------------------------------- the application sends a request *)
@@ -249,7 +264,7 @@ Proof.
   { destruct (lc_pstart (z_c z) !! z_next z) eqn:E; [|reflexivity].
     assert (z_next z < z_next z) by (apply (li_fresh_start _ _ I); eauto). lia. }
   destruct (drain_ins_start _ _ _ _ sc (li_drain _ _ I) Hnone) as [Hd Hn'].
-  destruct z as [b c nx up dn]. destruct I as [I1 I2 I3 I4 I5 I6 I7 I8 I9 I10]. cbn in *.
+  destruct z as [b c nx up dn]. destruct I as [I1 I2 I3 I4 I5 I6 I7 I8 I9 I10 I11]. cbn in *.
   constructor; cbn.
   - exact Hd.
   - destruct c'; exact I2.
@@ -267,11 +282,12 @@ Proof.
     intros [H|H]; [exact H|discriminate].
   - rewrite up_serials_app. cbn. apply nodup_snoc; assumption.
   - intros s. rewrite up_serials_app. cbn. rewrite elem_of_app, elem_of_list_singleton.
-    intros [H|->]; [apply I7 in H|]; lia.
+    intros [H | ->]; [apply I7 in H|]; lia.
   - intros s. destruct c as [v ps pt pd]; cbn in *. destruct (decide (s = nx)) as [->|Hne]; [lia|].
     rewrite lookup_insert_ne by congruence. intros H. apply I8 in H. lia.
   - intros s Hs. destruct c; cbn in *. apply I9 in Hs. lia.
   - intros s Hs. destruct c; cbn in *. apply I10 in Hs. lia.
+  - intros m. rewrite elem_of_app, elem_of_list_singleton. intros [H | ->]; [apply I11; exact H|reflexivity].
 Qed.
 
 Lemma linv_stop z c' :
@@ -284,7 +300,7 @@ Proof.
   assert (Hnone : z_next z ∉ lc_pstop (z_c z)).
   { intros Hin. apply (li_fresh_stop _ _ I) in Hin. lia. }
   destruct (drain_ins_stop _ _ _ _ (li_drain _ _ I) Hnone) as [Hd Hn'].
-  destruct z as [b c nx up dn]. destruct I as [I1 I2 I3 I4 I5 I6 I7 I8 I9 I10]. cbn in *.
+  destruct z as [b c nx up dn]. destruct I as [I1 I2 I3 I4 I5 I6 I7 I8 I9 I10 I11]. cbn in *.
   constructor; cbn.
   - exact Hd.
   - destruct c'; exact I2.
@@ -299,11 +315,12 @@ Proof.
     intros [H|H]; [exact H|discriminate].
   - rewrite up_serials_app. cbn. apply nodup_snoc; assumption.
   - intros s. rewrite up_serials_app. cbn. rewrite elem_of_app, elem_of_list_singleton.
-    intros [H|->]; [apply I7 in H|]; lia.
+    intros [H | ->]; [apply I7 in H|]; lia.
   - intros s Hs. destruct c; cbn in *. apply I8 in Hs. lia.
   - intros s. destruct c as [v ps pt pd]; cbn in *. rewrite elem_of_union, elem_of_singleton.
     intros [->|H]; [lia|]. apply I9 in H. lia.
   - intros s Hs. destruct c; cbn in *. apply I10 in Hs. lia.
+  - intros m. rewrite elem_of_app, elem_of_list_singleton. intros [H | ->]; [apply I11; exact H|reflexivity].
 Qed.
 
 Lemma linv_destroy z c' :
@@ -316,7 +333,7 @@ Proof.
   assert (Hnone : z_next z ∉ lc_pdestroy (z_c z)).
   { intros Hin. apply (li_fresh_destroy _ _ I) in Hin. lia. }
   destruct (drain_ins_destroy _ _ _ _ (li_drain _ _ I) Hnone) as [Hd Hn'].
-  destruct z as [b c nx up dn]. destruct I as [I1 I2 I3 I4 I5 I6 I7 I8 I9 I10]. cbn in *.
+  destruct z as [b c nx up dn]. destruct I as [I1 I2 I3 I4 I5 I6 I7 I8 I9 I10 I11]. cbn in *.
   constructor; cbn.
   - exact Hd.
   - destruct c'; exact I2.
@@ -331,11 +348,12 @@ Proof.
     + intros [H|H]; [right; exact H|left; inversion H; reflexivity].
   - rewrite up_serials_app. cbn. apply nodup_snoc; assumption.
   - intros s. rewrite up_serials_app. cbn. rewrite elem_of_app, elem_of_list_singleton.
-    intros [H|->]; [apply I7 in H|]; lia.
+    intros [H | ->]; [apply I7 in H|]; lia.
   - intros s Hs. destruct c; cbn in *. apply I8 in Hs. lia.
   - intros s Hs. destruct c; cbn in *. apply I9 in Hs. lia.
   - intros s. destruct c as [v ps pt pd]; cbn in *. rewrite elem_of_union, elem_of_singleton.
     intros [->|H]; [lia|]. apply I10 in H. lia.
+  - intros m. rewrite elem_of_app, elem_of_list_singleton. intros [H | ->]; [apply I11; exact H|reflexivity].
 Qed.
 
 (* ---------------------------------------------------------------- the client consumes a message *)
@@ -350,7 +368,7 @@ Proof.
                  lc_pstop c1 ⊆ lc_pstop (z_c z) /\ lc_pdestroy c1 ⊆ lc_pdestroy (z_c z)).
   { apply (drain_pending_sub [m]). cbn. rewrite E. reflexivity. }
   destruct Hsub as (G1 & G2 & G3).
-  destruct z as [b c nx up dn]. destruct I as [I1 I2 I3 I4 I5 I6 I7 I8 I9 I10]. cbn in *.
+  destruct z as [b c nx up dn]. destruct I as [I1 I2 I3 I4 I5 I6 I7 I8 I9 I10 I11]. cbn in *.
   constructor; cbn; try assumption.
   - intros s Hs. apply I8. apply G1. exact Hs.
   - intros s Hs. apply I9. set_solver.
@@ -361,7 +379,7 @@ Qed.
 Lemma linv_new_event z c' ev :
   LInv z c' -> LInv (z <| z_down ::= fun l => l ++ [EmitBusEvent None ev] |>) c'.
 Proof.
-  intros I. destruct z as [b c nx up dn]. destruct I as [I1 I2 I3 I4 I5 I6 I7 I8 I9 I10]. cbn in *.
+  intros I. destruct z as [b c nx up dn]. destruct I as [I1 I2 I3 I4 I5 I6 I7 I8 I9 I10 I11]. cbn in *.
   constructor; cbn; try assumption.
   rewrite ldrain_app, I1. reflexivity.
 Qed.
@@ -382,36 +400,180 @@ Proof.
   apply NoDup_cons in Hnd. destruct Hnd as [Hn _]. apply Hn. eapply elem_up_serials; eassumption.
 Qed.
 
+(* what remains pending once the head request has been answered *)
+Lemma tail_other {A} (P : A -> Prop) (X : A -> msg) (m : msg) u :
+  (forall x, P x <-> X x ∈ m :: u) -> (forall x, X x <> m) -> forall x, P x <-> X x ∈ u.
+Proof.
+  intros H Hne x. rewrite H, elem_of_cons. split; [|auto]. intros [E|E]; [exfalso; eapply Hne; exact E|exact E].
+Qed.
+
+Lemma tail_start (ps : gmap N scope) s sc u :
+  (forall s' sc', ps !! s' = Some sc' <-> StartBusListener s' k sc' ∈ StartBusListener s k sc :: u) ->
+  NoDup (up_serials (StartBusListener s k sc :: u)) ->
+  forall s' sc', delete s ps !! s' = Some sc' <-> StartBusListener s' k sc' ∈ u.
+Proof.
+  intros H Hnd s' sc'. rewrite lookup_delete_Some, H, elem_of_cons. split.
+  - intros [Hne [E|E]]; [inversion E; congruence|exact E].
+  - intros Hin. split; [|right; exact Hin]. intros ->.
+    eapply (in_tail_ne _ _ s' _ Hnd); [reflexivity|exact Hin|reflexivity].
+Qed.
+
+Lemma tail_set (pt : gset N) (X : N -> msg) s u :
+  (forall s', req_serial (X s') = Some s') -> (forall a b, X a = X b -> a = b) ->
+  (forall s', s' ∈ pt <-> X s' ∈ X s :: u) ->
+  NoDup (up_serials (X s :: u)) ->
+  forall s', s' ∈ pt ∖ {[s]} <-> X s' ∈ u.
+Proof.
+  intros HX Hinj H Hnd s'. rewrite elem_of_difference, elem_of_singleton, H, elem_of_cons. split.
+  - intros [[E|E] Hne]; [apply Hinj in E; congruence|exact E].
+  - intros Hin. split; [right; exact Hin|]. intros ->.
+    eapply (in_tail_ne _ _ s _ Hnd); [apply HX|exact Hin|apply HX].
+Qed.
+
 Lemma linv_broker z c' m u n :
   LInv z c' -> z_up z = m :: u ->
   exists c'', LInv (z <| z_up := u |> <| z_b := (lbroker k (z_b z) n m).1 |>
                       <| z_down ::= fun l => l ++ (lbroker k (z_b z) n m).2 |>) c''.
 Proof.
   intros I Hu.
-  destruct z as [b c nx up dn]. destruct I as [I1 I2 I3 I4 I5 I6 I7 I8 I9 I10]. cbn in *. subst up.
+  destruct z as [b c nx up dn]. destruct I as [I1 I2 I3 I4 I5 I6 I7 I8 I9 I10 I11]. cbn in *. subst up.
   assert (Hnd' : NoDup (up_serials u)).
   { unfold up_serials in *. cbn in I6. destruct (req_serial m); [apply NoDup_cons in I6; tauto|exact I6]. }
   assert (Hfr' : forall s, s ∈ up_serials u -> s < nx).
   { intros s Hs. apply I7. unfold up_serials in *. cbn. destruct (req_serial m); [right|]; exact Hs. }
-  (* the frame: a message that is not one of the three requests *)
-  assert (Hother : req_serial m = None ->
-                   (lbroker k b n m) = (b, []) ->
-                   exists c'', LInv {| z_b := (lbroker k b n m).1; z_c := c; z_next := nx; z_up := u;
-                                       z_down := dn ++ (lbroker k b n m).2 |} c'').
-  { intros Hn Hb. rewrite Hb. cbn. exists c'. constructor; cbn; try assumption.
-    - rewrite app_nil_r. exact I1.
-    - intros s sc. rewrite I3. rewrite elem_of_cons. split; [|auto].
-      intros [H|H]; [subst m; discriminate|exact H].
-    - intros s. rewrite I4, elem_of_cons. split; [|auto]. intros [H|H]; [subst m; discriminate|exact H].
-    - intros s. rewrite I5, elem_of_cons. split; [|auto]. intros [H|H]; [subst m; discriminate|exact H]. }
-  destruct m; try (apply Hother; reflexivity).
-  - (* StartBusListener serial c0 s *)
-    destruct (decide (c0 = k)) as [->|Hck].
-    2:{ (* a request for another cookie never enters this slice's queue; it is answered like any other *)
-        admit. }
-    admit.
-  - admit.
-  - admit.
-Admitted.
+  assert (Hon' : forall m', m' ∈ u -> is_lreq m') by (intros m' H; apply I11; right; exact H).
+  (* every conclusion has this shape: drain the new outputs from c', then the bookkeeping *)
+  assert (Hmk : forall b' outs c'',
+             ldrain c' outs = LcOk c'' -> link b' (lc_v c'') ->
+             (forall s sc, lc_pstart c'' !! s = Some sc <-> StartBusListener s k sc ∈ u) ->
+             (forall s, s ∈ lc_pstop c'' <-> StopBusListener s k ∈ u) ->
+             (forall s, s ∈ lc_pdestroy c'' <-> DestroyBusListener s k ∈ u) ->
+             LInv {| z_b := b'; z_c := c; z_next := nx; z_up := u; z_down := dn ++ outs |} c'').
+  { intros b' outs c'' Hd Hl H3 H4 H5. constructor; cbn; try assumption.
+    rewrite ldrain_app, I1. exact Hd. }
+  pose proof (I11 m (elem_of_list_here _ _)) as Hm.
+  destruct c' as [v' ps' pt' pd']. cbn in *.
+  destruct m; cbn in Hm; try contradiction; subst.
+  - (* DestroyBusListener *)
+    assert (Hs : serial ∈ pd') by (apply I5; left).
+    assert (T3 := tail_other _ (fun p => StartBusListener p.1 k p.2) _ u
+                    (fun p => I3 p.1 p.2) ltac:(intros p; discriminate)).
+    assert (T4 := tail_other _ (fun s => StopBusListener s k) _ u I4 ltac:(intros p; discriminate)).
+    assert (T5 := tail_set pd' (fun s => DestroyBusListener s k) serial u ltac:(reflexivity)
+                    ltac:(intros a b0 E; inversion E; reflexivity) I5 I6).
+    destruct b as [sc0|]; cbn.
+    + destruct v' as [l|]; [|destruct sc0; contradiction].
+      eexists. apply Hmk; cbn.
+      * rewrite bool_decide_eq_true_2 by exact Hs. cbn. reflexivity.
+      * exact I.
+      * intros s sc. apply (T3 (s, sc)).
+      * exact T4.
+      * exact T5.
+    + destruct v' as [l|]; [contradiction|].
+      eexists. apply Hmk; cbn.
+      * rewrite bool_decide_eq_true_2 by exact Hs. cbn. reflexivity.
+      * exact I.
+      * intros s sc. apply (T3 (s, sc)).
+      * exact T4.
+      * exact T5.
+  - (* StartBusListener *)
+    assert (Hs : ps' !! serial = Some s) by (apply I3; left).
+    assert (T3 := tail_start ps' serial s u I3 I6).
+    assert (T4 := tail_other _ (fun s => StopBusListener s k) _ u I4 ltac:(intros p; discriminate)).
+    assert (T5 := tail_other _ (fun s => DestroyBusListener s k) _ u I5 ltac:(intros p; discriminate)).
+    destruct b as [[sc0|]|]; cbn.
+    + (* already started *)
+      eexists. apply Hmk; cbn.
+      * rewrite Hs. reflexivity.
+      * exact I2.
+      * exact T3.
+      * exact T4.
+      * exact T5.
+    + (* started now *)
+      destruct v' as [l|]; [|contradiction]. destruct I2 as [Hsc _]. destruct l as [lsc lfin]. cbn in Hsc. subst lsc.
+      destruct (includes_current s) eqn:Hinc.
+      * eexists. apply Hmk; cbn.
+        -- rewrite Hs. cbn. rewrite Hinc. cbn.
+           rewrite ldrain_app, drain_events.
+           2:{ eexists. split; [reflexivity|]. cbn. rewrite Hinc. reflexivity. }
+           cbn. reflexivity.
+        -- cbn. split; [reflexivity|]. intros _. reflexivity.
+        -- exact T3.
+        -- exact T4.
+        -- exact T5.
+      * eexists. apply Hmk; cbn.
+        -- rewrite Hs. cbn. rewrite Hinc. cbn. reflexivity.
+        -- cbn. split; [reflexivity|]. intros _. reflexivity.
+        -- exact T3.
+        -- exact T4.
+        -- exact T5.
+    + (* destroyed *)
+      eexists. apply Hmk; cbn.
+      * rewrite Hs. reflexivity.
+      * exact I2.
+      * exact T3.
+      * exact T4.
+      * exact T5.
+  - (* StopBusListener *)
+    assert (Hs : serial ∈ pt') by (apply I4; left).
+    assert (T3 := tail_other _ (fun p => StartBusListener p.1 k p.2) _ u
+                    (fun p => I3 p.1 p.2) ltac:(intros p; discriminate)).
+    assert (T4 := tail_set pt' (fun s => StopBusListener s k) serial u ltac:(reflexivity)
+                    ltac:(intros a b0 E; inversion E; reflexivity) I4 I6).
+    assert (T5 := tail_other _ (fun s => DestroyBusListener s k) _ u I5 ltac:(intros p; discriminate)).
+    destruct b as [[sc0|]|]; cbn.
+    + destruct v' as [l|]; [|contradiction]. destruct I2 as [Hsc _]. destruct l as [lsc lfin]. cbn in Hsc. subst lsc.
+      eexists. apply Hmk; cbn.
+      * rewrite bool_decide_eq_true_2 by exact Hs. cbn. reflexivity.
+      * cbn. split; [reflexivity|]. intros H; congruence.
+      * intros s sc. apply (T3 (s, sc)).
+      * exact T4.
+      * exact T5.
+    + eexists. apply Hmk; cbn.
+      * rewrite bool_decide_eq_true_2 by exact Hs. cbn. reflexivity.
+      * exact I2.
+      * intros s sc. apply (T3 (s, sc)).
+      * exact T4.
+      * exact T5.
+    + eexists. apply Hmk; cbn.
+      * rewrite bool_decide_eq_true_2 by exact Hs. cbn. reflexivity.
+      * exact I2.
+      * intros s sc. apply (T3 (s, sc)).
+      * exact T4.
+      * exact T5.
+Qed.
+
+(* ---------------------------------------------------------------- every schedule *)
+Lemma linv_step z c' o :
+  LInv z c' ->
+  match lstep k z o with
+  | LOk z1 => exists c1, LInv z1 c1
+  | LDisabled => True
+  | LRej | LPan _ => False
+  end.
+Proof.
+  intros I. destruct o; cbn [lstep].
+  - eexists. apply linv_start. exact I.
+  - eexists. apply linv_stop. exact I.
+  - eexists. apply linv_destroy. exact I.
+  - destruct (z_up z) as [|m u] eqn:Hu; [exact Logic.I|].
+    destruct (linv_broker z c' m u n_current I Hu) as [c'' H].
+    destruct (lbroker k (z_b z) n_current m) as [b' outs]. exists c''. exact H.
+  - destruct (z_down z) as [|m d] eqn:Hd; [exact Logic.I|].
+    destruct (linv_recv z c' m d I Hd) as (c1 & E & H). rewrite E. exists c'. exact H.
+  - eexists. apply linv_new_event. exact I.
+Qed.
+
+Theorem listeners_never_rejected ops :
+  match lrun k lcreated ops with LOk _ => True | _ => False end.
+Proof.
+  assert (G : forall ops z c', LInv z c' -> match lrun k z ops with LOk _ => True | _ => False end).
+  { clear ops. induction ops as [|o ops IH]; intros z c' I; cbn [lrun]; [exact Logic.I|].
+    pose proof (linv_step z c' o I) as H.
+    destruct (lstep k z o) as [z1| | |]; try contradiction.
+    - destruct H as [c1 H]. exact (IH _ _ H).
+    - exact (IH _ _ I). }
+  exact (G ops _ _ linv_created).
+Qed.
 
 End Listener.
